@@ -72,10 +72,12 @@ CLAIMS = {
         text='Static. Decided clauses: MINUTE..YEAR constants; duration_parse table (unit -> constructor/factor); combine_durations sums every field, calculate table; the print chain divides and reduces by the same constant in strictly descending order (sum-preserving by construction); '
              'singular/plural tables; as_duration flooring table with matching divisor and constructor. Not decided: overflow for huge counts (C01), spelling recognition.'),
     'C11': dict(
-        technique='call-chain signatures + unit (minutes/seconds) analysis at offset sites; zone-table sanity; interval analysis of as_time',
+        technique='call-chain signatures of the zone conversions (with the resolved time-zone type of every chrono call), unit rule at every FixedOffset constructor, finite-domain tabulation of the GMT offset formula and of as_time, who-may-call rule for the host zone, gamma tables',
         ref='DESIGN.md section 5 C11',
-        text='Static. Decided clauses: which FixedOffset constructor / conversion API / offset variable feeds each step of reading, re-anchoring, converting and printing a time, with the minutes->seconds factor at every east() site; zone table sanity; as_time component ranges; ambient local zone is not consulted. '
-             'Not decided: real-world correctness of the offsets, am/pm edge.'),
+        text='Static. Decided clauses: Z1 reading a time anchors the wall time in east(default*60) and stores its UTC instant with the default zone; re-anchoring reads the instant in the current zone and anchors the same wall time in east(target*60); conversion keeps the stored instant and swaps the display zone; printing shows east(offset*60).from_utc_datetime(instant); '
+             'Z2 every FixedOffset constructor in the crate is east(<offset in minutes> * 60); Z3 all table offsets are multiples of 15 minutes within [-720, 840], UTC/GMT are 0, GMT+/-h[:mm] = sign*(h*60+m) on every (hour, minute, sign) cell, regex bounds h <= 19, m <= 59; Z4 as_time(d) = ((|d|/3600) mod 24, (|d| mod 3600)/60, |d| mod 60) on boundary durations of both signs; '
+             'Z5 no evaluation-reachable call goes through chrono::Local; Z6 set_timezone stores the upper-cased name and offset parse_timezone returned; Z7 and_hms takes hour / minute / second from the groups of those names, pm adds 12 below 12, regex bounds; Z8 TimeItem::calculate adds / subtracts seconds-from-midnight of the operand; Z9 T1 to T2 is the larger minus the smaller stored instant. '
+             'Not decided: real-world correctness of the 191 offsets; 12:xx am/pm (excluded by the statement).'),
     'C12': dict(
         technique='exact rational arithmetic over the unit tables of config.json; gamma-expanded value DAGs of calculate_unit/convert/calculate',
         ref='DESIGN.md section 5 C12',
